@@ -9,7 +9,7 @@ from mc.core import Acc, Hang, horizon
 ID = "C13"
 RULE = ("E-INPUT: every ordered pair of end points from {0, +-m x 10^e : m in 11 mantissas, e in -6..9 (quick: step 3)} that "
         "meets the statement's span conditions, plus a seeded mantissa set, x m in 1..100 and the default, through the real "
-        "LinearScale().domain(..).ticks(m)/tickFormat(m); on every 5th domain also call sequences on one live scale (ticks, nice, ticks / ticks, domain, ticks / ticks, copy, nice) judged against the domain the scale then reports; domains with an end 1e-15 .. 1e-4 of a step beside a tick (magnitudes 1e-6..1e6); on every 7th domain the plain cases again under two process-wide settings an application may have chosen (a 4-digit decimal context, DEBUG logging enabled). Oracle: step of form {1,2,5}x10^k, increasing, equal gaps, multiples "
+        "LinearScale().domain(..).ticks(m)/tickFormat(m); on every 5th domain also call sequences on one live scale (ticks, nice, ticks / ticks, domain, ticks / ticks, copy, nice / a tick iterator abandoned after its first element, then ticks again on this and on another scale) judged against the domain the scale then reports; domains with an end 1e-15 .. 1e-4 of a step beside a tick (magnitudes 1e-6..1e6); on every 7th domain the plain cases again under two process-wide settings an application may have chosen (a 4-digit decimal context, DEBUG logging enabled). Oracle: step of form {1,2,5}x10^k, increasing, equal gaps, multiples "
         "of the step, inside the domain, complete at both ends, count bounds, distinct texts that read back. "
         "Non-trivial: >= 2 ticks.")
 ASSUMPTIONS = ["float tolerances: 1e-6 of a step for gap equality/multiples/completeness, 1e-9 step for in-domain, 1e-3 step for read-back"]
@@ -111,6 +111,7 @@ def history_cases(a, b):
         yield ("ticks-domain-ticks", m, None)
         yield ("ticks-neardomain-ticks", m, None)
         yield ("ticks-copy-nice", m, None)
+        yield ("abandoned-ticks", m, None)
     yield ("stale-formatter", 50, 5)
     yield ("stale-formatter", 20, 2)
 
@@ -136,6 +137,22 @@ def run_history(a, b, kind, m, m2):
         s.tickFormat(m)
         s.domain([a, b])
         return [s]
+    if kind == "abandoned-ticks":
+        # the caller takes one tick and drops the rest (or empties the list it was handed): the result is the caller's
+        # own; the same request must be answered in full afterwards, by this scale and by another one over the same domain
+        # (on a domain of its own, so that the abandoned request is the first one for these end points in this process)
+        sh = (b - a) * 0.0131
+        a, b = a + sh, b + sh
+        s = LinearScale().domain([a, b])
+        got = s.ticks(m)
+        if isinstance(got, list):
+            del got[1:]
+        else:
+            next(iter(got), None)
+            if hasattr(got, "close"):
+                got.close()
+        del got
+        return [s, LinearScale().domain([a, b])]
     s = LinearScale().domain([a, b])
     list(itertools.islice(s.ticks(m), TICK_CAP))
     c = s.copy()
